@@ -146,6 +146,7 @@ structure DState where
   world : World := { store := [], ledger := { mintingDenom := [], bal := [], supply := [], faults := [] } }
   lowers : List (Bytes × Bytes) := []
   folds : List ((Bytes × Bytes) × Bool) := []
+  snaps : List (String × Store) := []
 
 def missMark : Bytes := "ORACLEMISS".toUTF8.data.toList
 
@@ -291,7 +292,7 @@ def step (s : DState) (line : String) : DState × String :=
       ({ pfx := kv.bytes "prefix",
          cfg := { moduleAddr := kv.bytes "module", moduleStr := kv.bytes "moduleStr" },
          world := { store := [], ledger := { mintingDenom := kv.bytes "mintingDenom", bal := [], supply := [], faults := [] } },
-         lowers := lowers, folds := folds }, "out=ok")
+         lowers := lowers, folds := folds, snaps := s.snaps }, "out=ok")
     | "fund" =>
       let a := kv.bytes "addr"; let d := kv.bytes "denom"; let n := kv.nat "amount"
       let l := s.world.ledger
@@ -391,6 +392,14 @@ def step (s : DState) (line : String) : DState × String :=
       (s, "out=ok r=" ++ r)
     | "dump" =>
       (s, s!"store={showStore s.world.store} {showLedger s.world.ledger}")
+    | "snap" => ({ s with snaps := (kv.get "id", s.world.store) :: s.snaps }, "out=ok")
+    | "snapdiff" =>
+      let a := (s.snaps.lookup (kv.get "a")).getD []
+      let b := (s.snaps.lookup (kv.get "b")).getD []
+      let ka := a.filter (fun e => b.get e.1 != some e.2) |>.map (·.1)
+      let kb := b.filter (fun e => (a.get e.1).isNone) |>.map (·.1)
+      let ks := (ka ++ kb).map hexStr |>.toArray |>.qsort (· < ·) |>.toList
+      (s, "out=ok diff=" ++ joinOr "," ks)
     | "#" => (s, "#")
     | _ => (s, "bad-op")
 
